@@ -57,6 +57,53 @@ CLAIMED = {
         "Real-code schedules are sampled (not exhaustive); exhaustiveness is at the model level.",
    technique="PlusCal/TLA+ implementation models checked by TLC + controlled-schedule execution of the real barriers + TLC trace validation",
    engine="mc+ctl+free+tv", design_ref="6/C05"),
+ "C01": dict(
+   category="model_checking",
+   text="ForEachAbs.tla states work conservation over operator-level events (Start only of a pending, not running, not committed "
+        "item; only Commit adds an attempt's pushes; Return only when nothing is pending or running); conflict aborts, which "
+        "leave no event, are inferred by the specification. The real galois::for_each runs generated operator programs (fan-out "
+        "trees, overlapping neighbourhoods, pushes before/after the last acquire, voluntary aborts) with every shipped worklist "
+        "type (31 parameterisations), with and without conflict detection, 1-4 threads under the controlled scheduler on four "
+        "socket topologies (proven-deadlock / step-limit detection for 'always returns'), and 1-8 threads with jitter and free-"
+        "running; TLC validates every log against ForEachAbs. A sanity model of ForEachAbs is model-checked.",
+   note="Trusted: TLC, controlled runtime, the harness operator (harness/include/vh/foreach_harness.h). Real schedules are "
+        "sampled; operators are cautious. Known findings: BulkSynchronous+conflict detection loses work (D9-lost), ctx.abort() with "
+        "one thread crashes (D11).",
+   technique="TLA+ abstract specification + controlled-schedule / free execution of the real for_each + TLC trace validation with inferred aborts",
+   engine="mc+ctl+free+tv", design_ref="6/C01"),
+ "C02": dict(
+   category="model_checking",
+   text="LockMgr.tla models try_lock/fetch_or/setValue/getOwner/unlock_and_clear, the neighbourhood list and commit/cancel with one "
+        "label per shared access; TLC checks AtMostOneOwner, AbortReleasesAll, NoneOwnedAtEnd and Serialisable for all interleavings "
+        "of 3 iterations x 2 objects (2.5M states). On the real code the for_each logs (as C01, executions with conflict detection) "
+        "are validated against ForEachAbs: an attempt can lose an object only if it aborts, per-object non-commutative update logs "
+        "equal the commit order, foreign ownership stamps and corrupted per-iteration blocks are rejected, and every lockable is "
+        "probed free after the loop.",
+   note="Trusted: TLC, controlled runtime, harness operator. Release points are not observable from the operator; the "
+        "specification releases at the commit event (sound, slightly weaker).",
+   technique="PlusCal/TLA+ model of the lock manager checked by TLC + TLC trace validation of real for_each executions",
+   engine="mc+ctl+free+tv", design_ref="6/C02"),
+ "C04": dict(
+   category="model_checking",
+   text="TermRing and TermTree model LocalTerminationDetection / TreeTerminationDetection with one label per shared access, composed "
+        "with a work-ledger environment (work handed to threads that already reported idle, threads becoming busy after passing the "
+        "token); TLC checks NoEarlyAnnounce, BoundedAnnounce (<= 4n-2 token hops after quiescence, tight for n = 2, 3) and termination "
+        "under fairness, plus a vacuity guard (the mutant that ignores workHappened must violate NoEarlyAnnounce). The real detectors "
+        "(system ring detector, tree detector instantiated directly) run the ledger program on pool threads: controlled schedules, "
+        "jitter, free; two consecutive loops with re-arming to another thread count; logs validated against TerminationAbs.",
+   note="Trusted: TLC, controlled runtime, the ledger program's adherence to the executor's reporting contract. The hop bound is a model-level "
+        "result; on the real code liveness is 'every loop returns'.",
+   technique="PlusCal/TLA+ models checked by TLC + controlled-schedule execution of the real detectors + TLC trace validation",
+   engine="mc+ctl+free+tv", design_ref="6/C04"),
+ "C08": dict(
+   category="model_checking",
+   text="ForEachAbs carries RoundSeparation (bulk-synchronous: nothing of an earlier round uncommitted at a start) and "
+        "NoPriorityInversion (OBIM with the barrier option, ascending and descending, monotone programs) besides conservation; the real "
+        "for_each with BulkSynchronous (2 containers) and OBIM/AdaptiveOBIM variants runs under controlled schedules on five topologies "
+        "(leader/non-leader asymmetry), jitter and free; logs carry levels and are validated by TLC.",
+   note="Trusted as C01. Known finding: BulkSynchronous with conflict detection (aborted item of round r retried after round r+1 started; lost children).",
+   technique="TLA+ abstract specification with level rules + TLC trace validation of real level-synchronous for_each executions",
+   engine="ctl+free+tv", design_ref="6/C08"),
 }
 
 NOT_YET = "check not built yet in this round (specification and harness planned in DESIGN.md section 6); not claimed"
